@@ -26,7 +26,7 @@ func genC18(t *rapid.T) RoutingCase {
 	}
 	c := RoutingCase{Via: harness.ViaDispatch}
 	c.Table = gen.Table(t, cfg)
-	c.Reqs = genRequests(t, c.Table, cfg, 4, 12)
+	c.Reqs = genRequests(t, c.Table, cfg, 1, 12)
 	if !tableHasMuxConflict(c.Table) && rapid.Bool().Draw(t, "viaServe") {
 		c.Via = harness.ViaServe
 	}
